@@ -82,7 +82,9 @@ def _worker_init(modname, quiet, run_root=None):
     os.environ["OMP_NUM_THREADS"] = "1"
     os.environ["MPLBACKEND"] = "Agg"
     base = run_root or SCRATCH_BASE
-    d = tempfile.mkdtemp(prefix="kv.", dir=base)
+    # the directory that holds every generated input has a blank and glob / regex metacharacters in its name (run directories
+    # such as `run [phi=0.4]+`): a path used as a pattern, split at blanks or pasted into a shell line shows at once
+    d = tempfile.mkdtemp(prefix=os.environ.get("KV_WORKDIR_PREFIX", "kv [p=0.4]+."), dir=base)
     _WORK["dir"] = d
     # library bookkeeping (matplotlib config / font cache) goes to its own scratch directory
     if run_root is None or "MPLCONFIGDIR" not in os.environ:
@@ -150,6 +152,24 @@ def _cov_dump():
             json.dump(sorted(_COV["lines"]), f)
 
 
+DECOY_NAMES = ["Header", "Cell_H", "state_H", "gradp_H", "I_R_H"] + ["%s_D_%05d" % (p, k) for p in ("Cell", "state", "gradp", "I_R") for k in range(4)]
+
+
+def plant_decoys(d):
+    """the working directory of every case holds files and level directories named like the components of a plotfile /
+    checkpoint (as when a tool is started from inside another plotfile): a component looked up relative to the working
+    directory instead of the plotfile finds garbage there"""
+    if os.environ.get("KV_NO_DECOYS"):
+        return
+    junk = b"DECOY ((8, (64 11 52 0 1 12 0 1023)),(8, (8 7 6 5 4 3 2 1)))((0,0,0) (1,1,1) (0,0,0)) 1\n" + b"\x7f\xf8\xde\xc0\xde\xc0\xde\xc0" * 64
+    for sub in ("", "Level_0", "Level_1", "Level_2"):
+        dd = os.path.join(d, sub)
+        os.makedirs(dd, exist_ok=True)
+        for n in DECOY_NAMES:
+            with open(os.path.join(dd, n), "wb") as f:
+                f.write(junk)
+
+
 def _run_chunk(chunk):
     mod = _WORK["mod"]
     out = []
@@ -157,6 +177,7 @@ def _run_chunk(chunk):
     for ci, case in chunk:
         d = _WORK["dir"]
         clean_dir(d)
+        plant_decoys(d)
         os.chdir(d)
         t0 = time.time()
         try:
@@ -309,7 +330,7 @@ def run_check(modname, tier, seed, nproc=None, quiet=True):
     # optional free-running pass in the (non-daemonic) parent: real pools, outcome must be among the explored ones
     free_runs = 0
     if hasattr(mod, "parent_pass") and not harness_errors:
-        d = tempfile.mkdtemp(prefix="kvfree.", dir=SCRATCH_BASE)
+        d = tempfile.mkdtemp(prefix=os.environ.get("KV_WORKDIR_PREFIX", "kvfree [p=0.4]+."), dir=SCRATCH_BASE)
         os.environ["MPLCONFIGDIR"] = os.path.join(d, "mplconfig")
         os.makedirs(os.environ["MPLCONFIGDIR"])
         sys.stdout.flush()
@@ -321,6 +342,7 @@ def run_check(modname, tier, seed, nproc=None, quiet=True):
             os.dup2(devnull, 2)
             os.chdir(d)
             try:
+                os.environ["KV_REAL_POOLS"] = "1"        # (helpers must not install the controlled pool in this process)
                 items = mod.parent_pass(tier, seed, d)
             except BaseException as e:
                 items = []
@@ -369,7 +391,7 @@ def run_check(modname, tier, seed, nproc=None, quiet=True):
             print("VIOLATION property=%s replay=%s clause=%s detail=%s"
                   % (prop, p, fl["clause"], fl["detail"][:200].replace("\n", " ")))
     if violations:
-        rc = 1 if rc == 0 else rc
+        rc = 1          # (a violation is reported as such even when other cases ended in a harness error)
         print("violations by clause: %s" % json.dumps(seen_clause, sort_keys=True))
 
     if not samples:
